@@ -415,6 +415,17 @@ def cases(rng, tier):
     # every non-empty subset of the differentiable operands of every multi-operand op requires grad, the others are constants
     out += mask_cases(rng, tier)
     out += reuse_cases(rng, tier)
+    # every run: max pooling over a window of MORE THAN 256 elements whose maximum sits at the LAST window position (offset >= 256: it does
+    # not fit a byte), 1-d and 2-d, appended after the drawn cases so that their stream is not moved
+    big = []
+    Ln = rng.randint(300, 330)
+    big.append(('max_pool1d', (1, 1, Ln), [Ln, 1, 0, 1]))
+    big.append(('max_pool2d', (1, 1, 17, 17), [show_ints((17, 17)), show_ints((1, 1)), show_ints((0, 0)), show_ints((1, 1))]))
+    for op_, sh_, args_ in big:
+        n_ = int(np.prod(sh_))
+        data_ = [float(v) / 8 for v in range(-n_ // 2, -n_ // 2 + n_)]                      # ascending in row-major order
+        fixed = lambda r, o, m, sh_=sh_, data_=data_, args_=args_: ([(sh_, data_, True)], list(args_))
+        out.append(base.finish(base.build(rng, op_, False, gen=fixed), rng))
     return out
 
 
